@@ -185,7 +185,7 @@ CSpec == TInit /\ [][CNext]_tvars
 CAtMostOnce == cfg.nw > 0 => AtMostOnce
 CBudgetOK == cfg.nw > 0 => BudgetOK
 CNoSameThreadConcurrent == cfg.nw > 0 => NoSameThreadConcurrent
-CValueAtItsPoint == cfg.nw > 0 => (\A r \in loaded : r.v = r.p) /\ (\A r, q \in loaded : r.p = q.p => r = q)
+CValueAtItsPoint == cfg.nw > 0 => (\A r \in loaded : r.v = r.p) /\ Cardinality({r.p : r \in loaded}) = Cardinality(loaded)
 \* the final surrogate reproduces the model at all loaded points
 CSurrogateReproduces == cfg.nw > 0 => \A i \in 1..Len(stored) : stored[i].v = stored[i].p
 =============================================================================
